@@ -52,5 +52,10 @@ shutil.copy(src / 'demo.py', dst / 'demo.py')
 if (src / 'notes.md').exists():
     meta['needs'] = (src / 'notes.md').read_text()[:3000]
 meta['caught_by'] = [p for p, r in meta['checks'].items() if r['rc'] == 1]
+old = dst / 'meta.json'
+if old.exists():        # re-evaluation after a check was strengthened: keep the first verdict
+    meta['first_version'] = json.loads(old.read_text()).get('first_version', 'caught')
+else:
+    meta['first_version'] = 'caught' if meta['caught_by'] else 'missed'
 (dst / 'meta.json').write_text(json.dumps(meta, indent=1))
 print(json.dumps({k: meta[k] for k in ('demo_clean_rc', 'demo_patched_rc', 'pinned_tests', 'all_tests', 'checks', 'caught_by')}, indent=1))
